@@ -110,7 +110,7 @@ func overlayFiles(id string, sp *propSpec) map[string]string {
 		filepath.Join(repoDir, "pkg/zzverifnd/nd.go"): filepath.Join(verifDir, "harness/nd/nd.go"),
 	}
 	for f, pkg := range sp.Files {
-		ov[filepath.Join(repoDir, pkg, "zz_verif_"+f)] = filepath.Join(verifDir, "harness", id, f)
+		ov[filepath.Join(repoDir, pkg, "zz_verif_"+filepath.Base(f))] = filepath.Join(verifDir, "harness", id, f)
 	}
 	return ov
 }
@@ -185,7 +185,7 @@ func cmdRun(id string, args []string) int {
 	var results []*harnessResult
 	exit := 0
 	inconclusive := false
-	for _, h := range sp.Harnesses {
+	for hidx, h := range sp.Harnesses {
 		if *only != "" && h.Func != *only {
 			continue
 		}
@@ -267,11 +267,11 @@ func cmdRun(id string, args []string) int {
 		}
 		// native replay of counterexamples and of path witnesses
 		if !*noreplay && !h.NoReplay {
-			replayNative(id, sp, ovFiles, h, tc, hr, known, *verbose)
+			replayNative(id, sp, ovFiles, h, hidx, tc, hr, known, *verbose)
 		} else {
 			for i := range rep.Violations {
 				v := rep.Violations[i]
-				p := saveReplay(id, h, tc, v.Witness, fmt.Sprintf("%s-%d", h.Func, i))
+				p := saveReplay(id, h, tc, v.Witness, fmt.Sprintf("%s-%d-%d", h.Func, hidx, i))
 				hr.Confirmed = append(hr.Confirmed, confirmedViolation{V: v, Path: p, Known: matchKnown(known, id, h.Func, v), Native: "not replayed"})
 			}
 		}
@@ -496,7 +496,7 @@ func packageName(dir string) (string, error) {
 	return "", fmt.Errorf("no package clause found in %s", dir)
 }
 
-func replayNative(id string, sp *propSpec, ovFiles map[string]string, h harnessSpec, tc tierCfg, hr *harnessResult, known []knownFinding, verbose bool) {
+func replayNative(id string, sp *propSpec, ovFiles map[string]string, h harnessSpec, hidx int, tc tierCfg, hr *harnessResult, known []knownFinding, verbose bool) {
 	rep := hr.Report
 	if len(rep.Violations) == 0 && len(rep.Witnesses) == 0 {
 		return
@@ -554,7 +554,7 @@ func replayNative(id string, sp *propSpec, ovFiles map[string]string, h harnessS
 		if o != nil && len(o.Recorded) > 0 {
 			v.Recorded = o.Recorded
 		}
-		p := saveReplay(id, h, tc, v.Witness, fmt.Sprintf("%s-%d", h.Func, i))
+		p := saveReplay(id, h, tc, v.Witness, fmt.Sprintf("%s-%d-%d", h.Func, hidx, i))
 		hr.Confirmed = append(hr.Confirmed, confirmedViolation{V: v, Path: p, Known: matchKnown(known, id, h.Func, v), Native: native})
 	}
 	for i, w := range rep.Witnesses {
